@@ -530,7 +530,7 @@ func (nw *Network) installCallbackSubmitter(n *SimNode, prob float64) {
 			tx := nw.NewTx(node.Idx, 0)
 			cp := append([]byte{}, tx...)
 			key := string(tx)
-			nw.Submitted[key] = &SubmittedTx{Bytes: cp, Node: node.Idx, Step: nw.Step, Count: 1, Inc: node.Incarnation}
+			nw.Submitted[key] = &SubmittedTx{Bytes: cp, Node: node.Idx, Step: nw.Step, Count: 1, Inc: node.Incarnation, ByNode: map[[2]int]int{{node.Idx, node.Incarnation}: 1}}
 			nw.SubmitOrder = append(nw.SubmitOrder, nw.Submitted[key])
 			nw.Rec.noteSubmission(node, cp)
 			// the commit callback runs inside the node's own lock hold
